@@ -727,6 +727,11 @@ func ruleErrorFlow(c *Ctx, rule string, c06, c07, c08 bool) {
 				if calleeIs(c, cs, genPkg, "(*InjectorProviderCallStmt).buildErrorHandlingStatement") {
 					// arg1 is the ident created from the pool's err name, the same ident appended to lhs
 					id := resolve(cs.arg(1))
+					for _, a := range cs.common.Args {
+						if strings.HasSuffix(a.Type().String(), "go/ast.Ident") { // wherever the identifier stands in the parameter list
+							id = resolve(a)
+						}
+					}
 					// `var errIdent *ast.Ident` set only for fallible providers and used under `errIdent != nil`: the one non-nil value
 					if ph, isPhi := id.(*ssa.Phi); isPhi {
 						var nonNil []ssa.Value
